@@ -41,6 +41,16 @@ def variant(i):
     steps = [("hh" if i == 5 else "h", rec, False)]
     if i == 10:
         steps.append(("s", T("vec", "float32*", e=ft), False))
+    elif i == 14:
+        steps.append(("s", T("fixarr", "float32[3]", dims=[3], e=ft), False))
+    elif i == 15:
+        steps.append(("s", T("fixarr", "float32[4]", dims=[4], e=ft), False))
+    elif i == 16:
+        steps.append(("s", T("arr", "!array {items: float32, dimensions: 1}", rank=1, e=ft), False))
+    elif i == 17:
+        steps.append(("s", T("fixarr", "float32[2, 2]", dims=[2, 2], e=ft), False))
+    elif i == 18:
+        steps.append(("s", T("arr", "float32[,]", rank=2, e=ft), False))
     else:
         steps.append(("s", ft, True))
     steps.append(("t", u, False))
@@ -50,7 +60,7 @@ def variant(i):
     return pkg, steps
 
 
-VARIANTS = [0, 1, 2, 4, 5, 6, 7, 8, 9, 10, 11, 12, 13]   # 12/13: enum vs flags with identical values
+VARIANTS = [0, 1, 2, 4, 5, 6, 7, 8, 9, 10, 11, 12, 13, 14, 15, 16, 17, 18]   # 14-18: array lengths / ranks   # 12/13: enum vs flags with identical values
 
 
 def limit_mem():
@@ -61,7 +71,7 @@ def run(ctx):
     ctx.build_repo(need_hook=True)
     ok, failing, log = ctx.coq_props("C15")
     ctx.coverage["trusted_base"] = TRUSTED
-    ctx.coverage["rule"] = ("(1) every ordered pair of 13 near-identical protocols (one field type / name / enum value / enum-vs-flags / "
+    ctx.coverage["rule"] = ("(1) every ordered pair of 18 near-identical protocols (quick: 12) (one field type / name / enum value / enum-vs-flags / "
                             "step name / stream-vs-vector / union order / optional / extra step / enum base changed): a valid stream of "
                             "A given to the generated Python and C++ readers of B, binary and NDJSON; (2) every single-byte "
                             "substitution (3 values), deletion and insertion (2 values) at every position of a valid binary header, and of "
@@ -72,7 +82,7 @@ def run(ctx):
                    {"broken": failing, "log": log[-3000:]}, no_input=True)
     quick = ctx.tier == "quick"
     rng = ctx.rng
-    ids = VARIANTS if not quick else [0, 1, 2, 4, 6, 7, 9, 12, 13]
+    ids = VARIANTS if not quick else [0, 1, 2, 4, 6, 7, 9, 12, 13, 14, 15, 16]
     gps = {}
     for i in ids:
         pkg, steps = variant(i)
@@ -151,8 +161,8 @@ def run(ctx):
         hlen = len(ymodel.enc_header(gp0.schemas_["P"]))
         muts = []
         step = 1 if not quick else 3
-        for pos in range(0, hlen, step):
-            for v in {b0[pos] ^ 1, b0[pos] ^ 0x80, 0}:
+        for pos in sorted(set(range(0, min(hlen, 12))) | set(range(0, hlen, step))):     # magic and version bytes: always all of them
+            for v in {b0[pos] ^ 1, b0[pos] ^ 0x80, 0, 2}:
                 if v != b0[pos]:
                     muts.append(("sub", pos, b0[:pos] + bytes([v]) + b0[pos + 1:]))
             muts.append(("del", pos, b0[:pos] + b0[pos + 1:]))
